@@ -127,7 +127,7 @@ void hx_cases(std::vector<Case> &cases) {
   add_large<0>(cases);
   add_large<3>(cases);
 #else
-  for (auto w : windows_sample(LARGE, 30, 5)) cases.push_back({"eval-large/o3/n" + std::to_string(LARGE) + "/w" + W(w), [=] { eval_case<3>(LARGE, w); }});
+  for (auto w : windows_sample(LARGE, 16, 5)) cases.push_back({"eval-large/o3/n" + std::to_string(LARGE) + "/w" + W(w), [=] { eval_case<3>(LARGE, w); }});
 #endif
   auto ws = windows_sample(LARGE, LARGE_HIST, 2), wt = windows_sample(LARGE, LARGE_HIST - 1, 3);
   for (auto w : ws)
